@@ -309,6 +309,15 @@ def run_case(case):
             left_stats = any(s.n() > 0 for s in h.model.stats.values())
             prior_state = h.sim.run_state.name
             out.label("prior-ended-in=" + prior_state)
+            if llp:
+                # an invalid observation offered to the long-lived tally producer between the replications: refused
+                # by the statistic (the error reaches the caller), nothing else changes
+                from pydsol.core.interfaces import StatEvents
+                try:
+                    h.model.prod["t"].fire(StatEvents.DATA_EVENT, float("nan"))
+                    out.fail("invalid-observation-accepted", "NaN to the tally")
+                except Exception:
+                    pass
             if kind == "cleanup":
                 h.sim.cleanup()
         # ---- the replication under test
